@@ -200,7 +200,11 @@ class DashOption:
     def int_or_none_from_string(value: str) -> int | None:
         if value in {None, '', 'none'}:
             return None
-        return int(value, 10)
+        rv = int(value, 10)
+        if abs(rv) > 0xFFFFFFFF:
+            # larger values overflow datetime.timedelta
+            raise ValueError(f'Value {value} is out of range')
+        return rv
 
     @staticmethod
     def float_or_none_from_string(value: str) -> float | None:
